@@ -52,6 +52,23 @@ MUTS = [
      "    flen: int = 0\n    err: EParseError = EParseError.NOERR\n\n    @property\n    def valid(self):\n        return self.err is not EParseError.HDR\n",
      "interfaceShape", "valid"),
     ("sof-literal-in-iparserecv", "proto/iparserecv.py", "\"\"\"", "SOF = 0x55\n\"\"\"", "noFrameLiterals", "0x55"),
+    # R6: frame ids compared by identity (reviewer edit E20a and its siblings)
+    ("fid-is-stream", "proto/parse.py", "        return frame.fid == EParseId.STREAM\n", "        return frame.fid is EParseId.STREAM\n",
+     "noFrameLiterals", "frame id compared by identity"),
+    ("fid-is-ack", "proto/parse.py", "        return frame.fid == EParseId.ACK\n", "        return frame.fid is EParseId.ACK\n",
+     "noFrameLiterals", "frame id compared by identity"),
+    ("fid-is-not-in-decoder", "proto/parse.py", "        if frame.fid != EParseId.CMNINFO:\n", "        if frame.fid is not EParseId.CMNINFO:\n",
+     "noFrameLiterals", "frame id compared by identity"),
+    ("fid-is-in-dispatch", "proto/parserecv.py", "        elif fid == EParseId.START:\n", "        elif fid is EParseId.START:\n",
+     "noFrameLiterals", "frame id compared by identity"),
+    # the wrapper table: frame_enable / frame_div end in a `_frame_set_*` builder in every branch
+    ("wrapper-edits-frame", "proto/parse.py", "            return self._frame_set_all(EParseId.ENABLE, data)\n",
+     "            return self._frame_set_all(EParseId.ENABLE, data)[:6] + b\"\\x00\\x00\"\n", "buildersUseCodec", "frame_enable"),
+    ("wrapper-bypasses-builders", "proto/parse.py", "            return self._frame_set_single(EParseId.DIV, data, chan)\n",
+     "            return self._frame.frame_create(EParseId.DIV, bytes([0, chan]) + data)\n", "buildersUseCodec", "frame_div"),
+    ("wrapper-caches", "proto/parse.py", "        return self._frame_set_bulk(EParseId.DIV, data)\n",
+     "        frame = self._frame_set_bulk(EParseId.DIV, data)\n        self._last_div = frame\n        return self._last_div\n",
+     "buildersUseCodec", "frame_div"),
 ]
 EXTRA_SRC = {"literal-in-helper": ("comm.py", "    def _drop_all_frames(self) -> None:",
                                    "    def _crop(self, b, hdr):\n        return b[-1024:][: hdr.flen]\n\n    def _drop_all_frames(self) -> None:"),
@@ -64,7 +81,8 @@ def facts(repo):
     o = TF.gen_frameuse(repo)
     f = o.facts
     return {"noFrameLiterals": not f["literals"], "receiveUsesComplete": not f["missing"],
-            "buildersUseCodec": all(n == 1 and ok for (_, _, n, ok) in f["builders"]),
+            "buildersUseCodec": all(n == 1 and ok for (_, _, n, ok) in f["builders"])
+            and all(n != 0 and ok for (_, _, n, ok) in f["wrappers"]),
             "interfaceShape": not f["interface"]}, f
 
 
@@ -94,7 +112,8 @@ def main():
                 open(p, "w").write(src.replace(o_, n_, 1))
             else:
                 fs, raw = facts(tmp)
-                text = repr(raw["literals"]) + repr(raw["interface"]) + repr([b for b in raw["builders"] if not (b[2] == 1 and b[3])])
+                text = repr(raw["literals"]) + repr(raw["interface"]) + repr([b for b in raw["builders"] if not (b[2] == 1 and b[3])]) \
+                    + repr([w for w in raw["wrappers"] if not (w[2] != 0 and w[3])])
                 if fs[fact] or needle not in text:
                     print(f"FAIL {name}: expected {fact} = false with a finding mentioning {needle!r}; got {fs} {text[:300]}")
                     bad += 1
